@@ -187,7 +187,7 @@ pub fn variant_scripts() -> Vec<Vec<VSet>> {
 
 pub fn type_scripts() -> Vec<Vec<TSet>> {
     let mut out = vec![];
-    for p in std::iter::once(None).chain((0..3u8).map(Some)) {
+    for p in std::iter::once(None).chain((0..5u8).map(Some)) {
         for d in std::iter::once(None).chain(DOC_CHOICES.iter().map(Some)) {
             let mut calls = vec![TSet::Path];
             if let Some(p) = p {
@@ -300,14 +300,35 @@ fn fields_model_portable(spec: &FieldsSpec) -> Vec<Field<PortableForm>> {
         .collect()
 }
 
+/// parameter lists as a program supplies them: through the public constructors and the two macros
 fn params_meta(k: u8) -> Vec<TypeParameter<MetaForm>> {
     match k {
         0 => vec![],
         1 => vec![TypeParameter::new("T", Some(meta_type::<u8>()))],
-        _ => vec![TypeParameter::new("T", None), TypeParameter::new("U", Some(meta_type::<PhantomData<bool>>()))],
+        2 => vec![TypeParameter::new("T", None), TypeParameter::new("U", Some(meta_type::<PhantomData<bool>>()))],
+        3 => scale_info::named_type_params![(A, PhantomData<u8>), (B, u8), (C, Option<PhantomData<bool>>)],
+        _ => scale_info::type_params![PhantomData<u8>, (u8, PhantomData<u8>)],
+    }
+}
+/// the same lists written out field by field (what the built type must contain)
+fn params_meta_model(k: u8) -> Vec<TypeParameter<MetaForm>> {
+    let p = |n: &'static str, t: Option<MetaType>| lit::param::<MetaForm>(n, t);
+    match k {
+        0 => vec![],
+        1 => vec![p("T", Some(meta_type::<u8>()))],
+        2 => vec![p("T", None), p("U", Some(meta_type::<PhantomData<bool>>()))],
+        3 => vec![p("A", Some(meta_type::<PhantomData<u8>>())), p("B", Some(meta_type::<u8>())), p("C", Some(meta_type::<Option<PhantomData<bool>>>()))],
+        _ => vec![p(stringify!(PhantomData<u8>), Some(meta_type::<PhantomData<u8>>())), p(stringify!((u8, PhantomData<u8>)), Some(meta_type::<(u8, PhantomData<u8>)>()))],
     }
 }
 fn params_portable(k: u8) -> Vec<TypeParameter<PortableForm>> {
+    match k {
+        0 => vec![],
+        1 => vec![TypeParameter::new_portable("T".into(), Some(0.into()))],
+        _ => vec![TypeParameter::new_portable("T".into(), None), TypeParameter::new_portable("U".into(), Some(u32::MAX.into()))],
+    }
+}
+fn params_portable_model(k: u8) -> Vec<TypeParameter<PortableForm>> {
     match k {
         0 => vec![],
         1 => vec![lit::param("T".into(), Some(0.into()))],
@@ -321,7 +342,7 @@ pub fn model_meta(s: &Script) -> Type<MetaForm> {
     for t in &s.tsets {
         match t {
             TSet::Path => {}
-            TSet::Params(k) => params = params_meta(*k),
+            TSet::Params(k) => params = params_meta_model(*k),
             TSet::Docs(a, c) => docs_model(&mut docs, *a, *c),
         }
     }
@@ -357,7 +378,7 @@ pub fn model_portable(s: &Script) -> Type<PortableForm> {
     for t in &s.tsets {
         match t {
             TSet::Path => {}
-            TSet::Params(k) => params = params_portable(*k),
+            TSet::Params(k) => params = params_portable_model(*k),
             TSet::Docs(_, c) => {
                 if DOCS_ON {
                     docs = DOCS[*c as usize].iter().map(|s| s.to_string()).collect()
